@@ -1,5 +1,5 @@
 """Contracts for pygamma_agreement/continuum.py (tier B: heap objects, abstract views, frames)."""
-from pyvc.contract import (contract, cl, GhostFun, Macro, Lemma, NdArray, ListOf, IntT, RealT, BoolT, TupleOf, FnT, OptT)
+from pyvc.contract import (contract, cl, GhostFun, Macro, Lemma, NdArray, ListOf, IntT, RealT, BoolT, TupleOf, FnT, OptT, RecT)
 from pyvc.heap import ObjT, UnitT, OptObjT
 from .types import StrT, SegT
 from .speclib import VIEW_MACROS, PSUM_LEMMAS
@@ -385,3 +385,65 @@ def best_alignment_contract(name, soft):
 
 best_alignment_contract("get_best_alignment", soft=False)
 best_alignment_contract("get_best_soft_alignment", soft=True)
+
+# =========================================================================================================
+# GammaResults and the thread-pool job functions   (C05, C12)
+# =========================================================================================================
+from .alignment import COMB   # noqa: E402
+ALIGNV = lambda: RecT("Alignment", unitary_alignments=ListOf(UAT()), _disorder=OptT(RealT()))   # noqa: E731  (alignment held in a list: by value)
+GRES = lambda: ObjT("GammaResults", best_alignment=ALIGN(), chance_alignments=ListOf(ALIGNV()),      # noqa: E731
+                    dissimilarity=DISSIM(), precision_level=OptT(RealT()))
+GR_MACROS = [Macro("meanchance", [], "rpsum(lam(k, some(self.chance_alignments[k]._disorder)), len(self.chance_alignments)) / "
+                                     "len(self.chance_alignments)")]
+GR_REQ = ["not isnone(self.best_alignment._disorder)",
+          "forall(k, 0, len(self.chance_alignments), not isnone(self.chance_alignments[k]._disorder))"]
+
+contract(F + "GammaResults.n_samples", params={"self": GRES()}, returns=IntT(), is_property=True,
+         ensures=[cl("result == len(self.chance_alignments)", "C05", name="number-of-chance-alignments")], serves={"C05"})
+
+contract(F + "GammaResults.observed_disorder", params={"self": GRES()}, returns=RealT(), is_property=True, requires=GR_REQ,
+         modifies=["self.best_alignment._disorder"],
+         ensures=[cl("result == some(self.best_alignment._disorder) and self.best_alignment._disorder == old(self.best_alignment._disorder)",
+                     "C05", name="disorder-of-the-best-alignment")], serves={"C05"})
+
+contract(F + "GammaResults.expected_disorder", params={"self": GRES()}, returns=RealT(), is_property=True, requires=GR_REQ,
+         macros=GR_MACROS, lemmas=PSUM_LEMMAS,
+         ensures=[cl("result == meanchance()", "C05", name="mean-chance-disorder")], serves={"C05"})
+
+contract(F + "GammaResults.gamma", params={"self": GRES()}, returns=RealT(), is_property=True, requires=GR_REQ, macros=GR_MACROS,
+         modifies=["self.best_alignment._disorder"],
+         raises={"ZeroDivisionError": {"iff": "some(self.best_alignment._disorder) != 0 and meanchance() == 0"}},
+         ensures=[cl("result == ite(some(self.best_alignment._disorder) == 0, 1, 1 - some(self.best_alignment._disorder) / meanchance())",
+                     "C05", name="one-minus-observed-over-expected"),
+                  cl("implies(some(self.best_alignment._disorder) >= 0 and meanchance() > 0, result <= 1)", "C05", name="never-above-one")],
+         serves={"C05"})
+
+contract(F + "_compute_gamma_k_job",
+         params={"dissimilarity": COMB(), "alignment": ALIGN(), "category": OptT(StrT())}, returns=RealT(), modifies=[],
+         requires=["dissimilarity.delta_empty >= 0",
+                   "forall(t, 0, len(alignment.unitary_alignments), forall(i, 0, len(alignment.unitary_alignments[t]._n_tuple), "
+                   "implies(not isnone(alignment.unitary_alignments[t]._n_tuple[i][1]), "
+                   "some(alignment.unitary_alignments[t]._n_tuple[i][1]).e - some(alignment.unitary_alignments[t]._n_tuple[i][1]).s > 1e-6)))"],
+         ensures=[cl("result >= 0", "C12", name="a-categorical-disorder")],
+         notes="the job is exactly alignment.gamma_k_disorder(dissimilarity, category); its value is specified by that contract",
+         serves={"C12", "C05", "C06"})
+
+
+def job_contract(job, meth, soft):
+    """_compute_*_alignment_job(dissimilarity, continuum) == continuum.<meth>(dissimilarity): the structural clauses of the callee,
+    re-stated for the job's parameter names (the optimality clauses stay with the callee: they mention its ghost outputs)"""
+    import re
+    from pyvc.contract import REGISTRY, Clause
+    callee = REGISTRY[F + "Continuum." + meth]
+    ren = lambda t: re.sub(r"\bself\b", "continuum", t)       # noqa: E731
+    keep = ("attached", "P1-well-formed-own-units", "P2-some-real-unit", "P3-every-unit-at-least-once", "P3-every-unit-at-most-once",
+            "disorder-is-sum-over-xbar")
+    macros = [Macro(m.name, m.params, ren(m.body.text)) for m in callee.macros.values()]
+    ens = [cl(ren(c.text), " ".join(sorted(c.props)) if c.props else None, name=c.name) for c in callee.ensures if c.name in keep]
+    return contract(F + job, params={"dissimilarity": DISSIM(), "continuum": CONT()}, returns=ALIGN("SoftAlignment" if soft else "Alignment"),
+                    modifies=[], macros=macros, requires=[ren(c.text) for c in callee.requires],
+                    raises={"AssertionError": {}, "SolverError": {}}, ensures=ens, serves={"C05", "C06", "C01", "C11"})
+
+
+job_contract("_compute_best_alignment_job", "get_best_alignment", False)
+job_contract("_compute_soft_alignment_job", "get_best_soft_alignment", True)
